@@ -1,0 +1,16 @@
+//go:build verif
+
+package json
+
+// Contracts for govc (see /verif/DESIGN.md C15). Comment-only file: it adds no code.
+//
+// Encoder side (C15): values JSON cannot represent are rejected with an error rather than mis-encoded -
+// a marked value and an unknown value at whatever depth marshal reaches them through its own recursion.
+// Nothing else about the produced text is claimed (encoding/json and bytes.Buffer are externals).
+//@ func json.marshal
+//@   tags C15
+//@   may_panic
+//@   requires (wf_deep val)
+//@   writes bytes.Buffer b
+//@   ensures[C15] marked_rejected: (=> (is_marked val) (not (= result nil.Any)))
+//@   ensures[C15] unknown_rejected: (=> (not (is_known val)) (not (= result nil.Any)))
